@@ -106,9 +106,35 @@ def runCommand (fuel : Nat) (s : St Float) : List String × St Float :=
     (outs.map encOut ++ ["E:" ++ encErr e], s')
 
 structure Session where
+  page : Option (Page Float) := some {}
+  uiSeen : Nat := 0
   st : St Float := {}
   lastErr : Option TErr := none
   fuel : Nat := defaultFuel
+
+def argText : List String → Str
+  | [h] => (unhex h).getD []
+  | _ => []
+
+def encJsState : Option JsState → String
+  | none => "TRAP"
+  | some .idle => "Idle"
+  | some .running => "Running"
+  | some .awaitingInput => "AwaitingInput"
+  | some .errored => "Errored"
+
+/-- apply a page event; reply = adapter state, pending timer callbacks, interactivity, and what the page printed -/
+def webEvent (sess : Session) (f : Page Float → Option (Page Float)) : Session × String :=
+  match sess.page with
+  | none => (sess, "TRAPPED")
+  | some p =>
+    match f p with
+    | none => ({ sess with page := none }, "TRAP")
+    | some p' =>
+      let fresh := p'.ui.drop sess.uiSeen
+      let ui := " ".intercalate (fresh.map fun (c, t) => c ++ ":" ++ hexOfStr t)
+      ({ sess with page := some p', uiSeen := p'.ui.length },
+       s!"{encJsState p'.js.getState} t={p'.ticks} i={if p'.interactive then 1 else 0} F:ok ui={ui}")
 
 def runM (sess : Session) (m : M Float Unit) : Session × String :=
   match m sess.st with
@@ -186,6 +212,15 @@ def step (sess : Session) (line : String) : Session × String :=
          let (pipeOut, _) := runCommand sess.fuel typed
          (sess, if fileOut == pipeOut then "same" else "DIFF")
      | none => (sess, "bad-utf8"))
+  | "wnew" :: _ => ({ sess with page := some {}, uiSeen := 0 }, "ok")
+  | ["wseed", n] =>
+    (match sess.page with
+     | some p => ({ sess with page := some { p with js := { p.js with core := { p.js.core with rng := rngNew n.toNat! } } } }, "ok")
+     | none => (sess, "TRAPPED"))
+  | "wload" :: rest => webEvent sess (fun p => Page.load sess.fuel (argText rest) p)
+  | "wsubmit" :: rest => webEvent sess (fun p => Page.submit sess.fuel (argText rest) p)
+  | ["wbreak"] => webEvent sess (fun p => Page.break sess.fuel p)
+  | ["wtick"] => webEvent sess (fun p => Page.tick sess.fuel p)
   | ["state"] => (sess, encState sess.st.state)
   | ["reads"] => (sess, toString sess.st.reads)
   | ["nesting"] => (sess, toString sess.st.nesting)
